@@ -11,7 +11,10 @@ def run(ctx):
     hx = ctx.build_go("hxcache")
     traces = []
     if ok and hx:
-        if ctx.replay:
+        conc_replay = bool(ctx.replay) and "-mode conc" in open(ctx.replay).read()
+        if conc_replay:
+            runs = []        # the replay of a concurrent failure is the concurrent mode itself (below)
+        elif ctx.replay:
             runs = [("replay", ["-mode", "replay", "-file", ctx.replay])]
         else:
             runs = [("corpus-" + os.path.basename(f), ["-mode", "replay", "-file", f])
@@ -40,7 +43,7 @@ def run(ctx):
             if not ctx.cov["samples"]:
                 ctx.cov["samples"] = open(tr).read().splitlines()[:12]
     # concurrent callers: a concrete failing schedule when the operations stop being atomic (judged directly)
-    if ok and hx and not ctx.replay:
+    if ok and hx and (not ctx.replay or conc_replay):
         tr = os.path.join(ctx.work, "conc.trace")
         rounds, per = ("3", "3000") if ctx.tier == "quick" else ("40", "6000")
         if ctx.run_harness(hx, ["-mode", "conc", "-cases", rounds, "-len", per], tr):
